@@ -24,6 +24,12 @@ SCENARIOS = {
     "first-run-no-archive": ({"a1": b"only A", "c": b"left"}, {"b1": b"only B", "c": b"right!"}, [], False),
     "several-at-once": ({"p": b"1", "q": b"2", "r": b"3", "s/t": b"4"}, {"p": b"1", "q": b"2", "r": b"3", "s/t": b"4"},
                         [("w", "A", "p", b"1a"), ("d", "B", "q"), ("w", "B", "r", b"3b" * 100), ("w", "A", "new", b"n"), ("w", "A", "s/t", b"4a"), ("w", "B", "s/t", b"4b")], True),
+    # the archive still records a conflict copy that was since removed from BOTH sides (no run in between), and the
+    # same divergent edit happens again: the run writes that very name again (D16: a crash after the first of the two
+    # conflict copies made the recovery run read "unchanged since the base, deleted on the other side" and delete it)
+    "repeat-conflict-stale-record": ({"f": b"base\n", "k": b"k"}, {"f": b"base\n", "k": b"k"},
+                        [("w", "A", "f", b"aaa\n"), ("w", "B", "f", b"bbb\n"), ("s",), ("dg", "A", "f.conflict-"), ("dg", "B", "f.conflict-"),
+                         ("w", "A", "f", b"aaa\n"), ("w", "B", "f", b"x1\n")], True),
 }
 
 
@@ -133,7 +139,17 @@ def run(pid, tier, seed, rundir, model_run):
                     res["broken"].append(f"C08/setup: base sync of scenario {name} failed rc={rc0}")
                     continue
             for m in mods:
-                (hw.write(m[1], m[2], m[3]) if m[0] == "w" else hw.delete(m[1], m[2]))
+                if m[0] == "w":
+                    hw.write(m[1], m[2], m[3])
+                elif m[0] == "d":
+                    hw.delete(m[1], m[2])
+                elif m[0] == "s":
+                    hw.bisync()
+                elif m[0] == "dg":
+                    root = wa if m[1] == "A" else wb
+                    for f in os.listdir(root):
+                        if f.startswith(m[2]):
+                            os.remove(os.path.join(root, f))
             shutil.copytree(W, T, symlinks=True)
 
             def restoreW():
@@ -222,7 +238,7 @@ def run(pid, tier, seed, rundir, model_run):
         res["broken"].append(f"C08/corr/trace-conformance: the mutating-call sequence of {ndis} of {len(ops)} reference runs differs from the model's step list")
     res.update(evaluations=nkill + len(ops), distinct_nontrivial=nkill, n_disagreements=ndis, n_oracle_failures=len(res["violations"]),
                traces_validated=len(ops),
-               rule="8 scenarios (create, propagate either way, delete either way, both-changed conflict, delete-vs-modify, first run without archive, several paths at once); for each, "
+               rule="9 scenarios (create, propagate either way, delete either way, both-changed conflict, delete-vs-modify, first run without archive, several paths at once, repeated conflict whose conflict-copy name is still recorded); for each, "
                     "EVERY k = 1..N: the process is SIGKILLed immediately before its k-th call in {openat, write, copy_file_range, fsync, rename*, unlink*, mkdir*, …} (main thread, per reference trace), "
                     "then trees + archive are checked (complete versions only; record old/absent/new and new only with all data in place) and recovery runs must reach the uninterrupted result. "
                     "The reference trace's mutating calls are compared as a sequence with the Lean step list; fsync-before-rename and data-before-record are checked on the trace. Distinct = kill points.")
